@@ -164,6 +164,18 @@ def gen(rng, tier, n):
             ops.append({"op": "decorate", "args": {"schema": doc, "schema2": doc2, "insts": o7["args"]["insts"][:8]},
                         "meta": {"kw": gs.count_keywords(doc), "folded": folded, "c07": True}})
             continue
+        if draft == "2020" and rng.random() < 0.06:
+            # a decoration next to a bare $ref hop of a dynamic-scope topology must not change which resources are in scope
+            from . import c06
+            ot = c06.topo(rng)
+            if ot["args"]["docs"]:
+                continue
+            doc = ot["args"]["schema"]
+            doc2, folded = decorate(rng, doc, draft)
+            ops.append({"op": "decorate", "args": {"schema": doc, "schema2": doc2, "base": ot["args"]["base"],
+                                                    "insts": rng.sample(ot["args"]["insts"], min(8, len(ot["args"]["insts"])))},
+                        "meta": {"kw": gs.count_keywords(doc), "folded": folded, "topo": True}})
+            continue
         c = gs.Ctx(rng, draft, depth=rng.choice([1, 2, depth]), meta=0)
         doc = gs.gen_document(c, rng.choice(gs.D7_URIS) if draft == "7" else None)
         if not isinstance(doc, Obj):
